@@ -135,13 +135,14 @@ def main(tier, seed, replay):
             by.setdefault(c[1].split(":")[0] + c[1].split(":")[2][:1] + c[0][:17], []).append(c)
         sample = []
         for k in sorted(by):
-            sample += rnd.sample(by[k], min(len(by[k]), 3 if tier == "quick" else 12))
+            q = 1 if "run_submit_dedup" in k else 3   # quick tier: one deduplicated case per group
+            sample += rnd.sample(by[k], min(len(by[k]), q if tier == "quick" else 12))
         ups = {}
         for c in (coq_upissuers(l) for l in mlines):
             if c:
                 ups.setdefault(c[1].split(":")[0] + str("other" in c[1]), []).append(c)
         for k in sorted(ups):
-            sample += rnd.sample(ups[k], min(len(ups[k]), 2 if tier == "quick" else 10))
+            sample += rnd.sample(ups[k], min(len(ups[k]), 1 if tier == "quick" else 10))
         rc = coq_roots([l for l in mlines if l.startswith(("loadroots", "setroots"))])
         if rc:
             sample.append(rc)
